@@ -16,17 +16,25 @@ pub struct RecordTypeSet { pub vp: u64 }
 // 2-octet / 1-octet enum readers: `read_u16/read_u8` followed by a total conversion
 impl Algorithm {
     #[verifier::external_body] pub fn from_u8(v: u8) -> Algorithm { unimplemented!() }
-    pub fn read(decoder: &mut BinDecoder<'_>) -> (r: Result<Algorithm, DecodeError>)
+//%fn crates/proto/src/dnssec/algorithm.rs :: impl<'r> BinDecodable<'r> for Algorithm :: read
+//%novis
+//%sub1 "fn read(" => "pub fn read<'r>(" # R-vis: trait-impl method placed in an inherent impl (the impl's lifetime parameter moves to the fn)
+//%contract
         requires old(decoder).wf()
         ensures final(decoder).wf(), final(decoder).buf() == old(decoder).buf(), final(decoder).idx() >= old(decoder).idx()
-    { match decoder.read_u8() { Ok(v) => Ok(Algorithm::from_u8(v.unverified())), Err(e) => Err(e) } }
+//%end
 }
 impl RecordType {
-    #[verifier::external_body] pub fn from_u16(v: u16) -> RecordType { unimplemented!() }
-    pub fn read(decoder: &mut BinDecoder<'_>) -> (r: Result<RecordType, DecodeError>)
+    #[verifier::external_body] pub fn from(v: u16) -> RecordType { unimplemented!() }
+//%fn crates/proto/src/rr/record_type.rs :: impl BinDecodable<'_> for RecordType :: read
+//%novis
+//%sub1 "fn read" => "pub fn read" # R-vis
+//%sub1 ".map( Restrict::unverified, )" => ".map(|v: Restrict<u16>| -> (o: u16) ensures o == v.0 { v.unverified() })" # R-shim: method path used as a function value is eta-expanded
+//%sub1 ".map(Self::from)" => ".map(|v: u16| -> (o: RecordType) { RecordType::from(v) })" # R-shim: eta-expanded
+//%contract
         requires old(decoder).wf()
         ensures final(decoder).wf(), final(decoder).buf() == old(decoder).buf(), final(decoder).idx() >= old(decoder).idx()
-    { match decoder.read_u16() { Ok(v) => Ok(RecordType::from_u16(v.unverified())), Err(e) => Err(e) } }
+//%end
 }
 impl DigestType { #[verifier::external_body] pub fn from(v: u8) -> DigestType { unimplemented!() } }
 impl Nsec3HashAlgorithm {
@@ -42,7 +50,7 @@ pub fn name_read<'r>(decoder: &mut BinDecoder<'r>) -> (r: Result<Name, DecodeErr
 #[verifier::external_body]
 pub fn record_type_set_read_data(decoder: &mut BinDecoder<'_>) -> (r: Result<RecordTypeSet, DecodeError>)
     requires old(decoder).wf()
-    ensures final(decoder).wf(), final(decoder).buf() == old(decoder).buf()
+    ensures final(decoder).wf(), final(decoder).buf() == old(decoder).buf(), final(decoder).idx() >= old(decoder).idx()
 { unimplemented!() }
 
 pub struct NSEC3 { pub vp: u64 }
@@ -73,7 +81,7 @@ impl NSEC3 {
 |hash_len: usize| -> (e: DecodeError)
 //%contract
     requires old(decoder).wf()
-    ensures final(decoder).wf(), final(decoder).buf() == old(decoder).buf()
+    ensures final(decoder).wf(), final(decoder).buf() == old(decoder).buf(), final(decoder).idx() >= old(decoder).idx()
 //%end
 
 pub struct PublicKeyBuf { pub vp: u64 }
@@ -89,7 +97,7 @@ impl DNSKEY { #[verifier::external_body] pub fn with_flags(flags: u16, k: Public
 |protocol: &u8| -> (b: bool)
 //%contract
     requires old(decoder).wf()
-    ensures final(decoder).wf(), final(decoder).buf() == old(decoder).buf()
+    ensures final(decoder).wf(), final(decoder).buf() == old(decoder).buf(), final(decoder).idx() >= old(decoder).idx()
 //%end
 
 pub struct DS { pub vp: u64 }
@@ -100,7 +108,7 @@ impl DS { #[verifier::external_body] pub fn new(key_tag: u16, a: Algorithm, d: D
 //%sub1 "Ok(Self::new(" => "Ok(DS::new(" # R-sel
 //%contract
     requires old(decoder).wf()
-    ensures final(decoder).wf(), final(decoder).buf() == old(decoder).buf()
+    ensures final(decoder).wf(), final(decoder).buf() == old(decoder).buf(), final(decoder).idx() >= old(decoder).idx()
 //%end
 
 //%struct crates/proto/src/dnssec/rdata/sig.rs :: SigInput
@@ -114,7 +122,7 @@ impl DS { #[verifier::external_body] pub fn new(key_tag: u16, a: Algorithm, d: D
 //%sub1 "Name::read(decoder)" => "name_read(decoder)" # R-sel: proved in unit name_read
 //%contract
     requires old(decoder).wf()
-    ensures final(decoder).wf(), final(decoder).buf() == old(decoder).buf()
+    ensures final(decoder).wf(), final(decoder).buf() == old(decoder).buf(), final(decoder).idx() >= old(decoder).idx()
 //%end
 
 pub struct NSEC { pub next_domain_name: Name, pub type_bit_maps: RecordTypeSet }
@@ -126,7 +134,7 @@ pub struct NSEC { pub next_domain_name: Name, pub type_bit_maps: RecordTypeSet }
 //%sub1 "RecordTypeSet::read_data(decoder)" => "record_type_set_read_data(decoder)" # R-sel
 //%contract
     requires old(decoder).wf()
-    ensures final(decoder).wf(), final(decoder).buf() == old(decoder).buf()
+    ensures final(decoder).wf(), final(decoder).buf() == old(decoder).buf(), final(decoder).idx() >= old(decoder).idx()
 //%end
 
 pub struct CSYNC { pub soa_serial: u32, pub immediate: bool, pub soa_minimum: bool, pub reserved_flags: u16, pub type_bit_maps: RecordTypeSet }
@@ -139,7 +147,7 @@ pub struct CSYNC { pub soa_serial: u32, pub immediate: bool, pub soa_minimum: bo
 //%sub1 "|flags| flags & 0b1111_1100 == 0" => "|flags: &u16| -> (b: bool) { *flags & 0b1111_1100 == 0 }" # R-clo + R-shim: typed closure, BitAnd on a &u16 operand written with an explicit deref
 //%contract
     requires old(decoder).wf()
-    ensures final(decoder).wf(), final(decoder).buf() == old(decoder).buf()
+    ensures final(decoder).wf(), final(decoder).buf() == old(decoder).buf(), final(decoder).idx() >= old(decoder).idx()
 //%end
 } // verus!
 fn main() {}
